@@ -166,9 +166,14 @@ INT_TYPES = ['int8', 'uint8', 'int16', 'uint16', 'int32', 'int64']
 
 
 def tint(v, ty):
-    """the integer value v as a Python int (ty None/'int') or as a numpy scalar of the named type"""
+    """the integer value v as a Python int (ty None/'int'), as a numpy scalar of the named type (int8 ... uint64,
+    intp), as a 0-d integer array ('0d') or as a Python bool ('bool', only for the values 0 and 1)"""
     if v is None or ty in (None, 'int'):
         return v
+    if ty == '0d':
+        return np.array(v)
+    if ty == 'bool':
+        return bool(v) if v in (0, 1) else v
     info = np.iinfo(getattr(np, ty))
     if not (info.min <= v <= info.max):
         return v
@@ -488,32 +493,41 @@ def ls_arrays(case):
     return hs, ss_, var
 
 
-def ls_cast(a, var):
-    dt = var.get('dtype') or 'complex128'
+def ls_cast(a, var, which=None):
+    """cast / re-lay one LS argument; `which` ('y' / 's') selects a per-argument dtype (R10: mixed dtypes)"""
+    dt = (var.get(which + 'dtype') if which else None) or var.get('dtype') or 'complex128'
     a = np.asarray(a)
     if np.dtype(dt).kind != 'c':
         a = a.real
     return relayout(a.astype(dt), var.get('layout'))
 
 
+def ls_is_real(var):
+    return any(np.dtype(var.get(k) or 'complex128').kind != 'c' for k in ('dtype', 'ydtype', 'sdtype'))
+
+
+def ls_is_narrow(var):
+    return any((var.get(k) or 'complex128') in ('complex64', 'float32') for k in ('dtype', 'ydtype', 'sdtype'))
+
+
 def o_ls(case):
     """Y = H S (Gaussian integers), S of full row rank  =>  LS estimate = H"""
     est = _impl()[5]
     hs, ss, var = ls_arrays(case)
-    if np.dtype(var.get('dtype') or 'complex128').kind != 'c':
+    if ls_is_real(var):
         hs = [h.real + 0j for h in hs]
         ss = [x.real + 0j for x in ss]
     shape = case.get('shape', '2d')
     tag = variant_tag(var)
     cls = shape + ('|' + tag if tag else '')
     if shape == '2d':
-        y, sarg = ls_cast(hs[0] @ ss[0], var), ls_cast(ss[0], var)
+        y, sarg = ls_cast(hs[0] @ ss[0], var, 'y'), ls_cast(ss[0], var, 's')
         truth = hs[0]
     elif shape == '3d-shared':
-        y, sarg = ls_cast(np.array([h @ ss[0] for h in hs]), var), ls_cast(ss[0], var)
+        y, sarg = ls_cast(np.array([h @ ss[0] for h in hs]), var, 'y'), ls_cast(ss[0], var, 's')
         truth = np.array(hs)
     else:
-        y, sarg = ls_cast(np.array([h @ x for h, x in zip(hs, ss)]), var), ls_cast(np.array(ss), var)
+        y, sarg = ls_cast(np.array([h @ x for h, x in zip(hs, ss)]), var, 'y'), ls_cast(np.array(ss), var, 's')
         truth = np.array(hs)
     snap = Snap(Y=y, S=sarg)
     out = np.asarray(est.compute_ls_estimation(y, sarg))
@@ -524,8 +538,7 @@ def o_ls(case):
     if out.dtype.kind in 'iub':
         return 'ls-integer-result:' + cls, 'result dtype %s truncates' % out.dtype
     mag = float(np.max(np.abs(truth))) if truth.size else 0.0
-    narrow = np.dtype(var.get('dtype') or 'complex128').itemsize <= (8 if np.dtype(
-        var.get('dtype') or 'complex128').kind == 'c' else 4) and np.dtype(var.get('dtype') or 'complex128').kind in 'cf'
+    narrow = ls_is_narrow(var)
     d = max_diff(out, truth)
     if not d <= (2e-2 if narrow else 1e-8) * mag:
         return 'ls-inexact:' + cls, 'max |H_est - H| = %s (|H| <= %.3e)' % (d, mag)
@@ -549,8 +562,31 @@ def _robust():
     return c18_robust
 
 
+def _robust2():
+    from harness.props import c18_robust2
+    for k_, v_ in c18_robust2.ORACLES.items():
+        ORACLES.setdefault(k_, v_)
+    return c18_robust2
+
+
+def guarded(ctx, name, fn, *args):
+    """an exception raised by the LIBRARY (or by the comparison code on what the library returned) inside a
+    correspondence is a broken tie (-> failing-input search -> exit 1), never an infrastructure error"""
+    try:
+        return fn(*args)
+    except core.Infra:
+        raise
+    except Exception as e:
+        import traceback
+        ctx.tie_broken('correspondence', name, 'exception in the correspondence run: %r\n%s' % (
+            e, traceback.format_exc()[-1500:]))
+        ctx.branch('corr-exception:' + name)
+        return None
+
+
 def run_oracle(ctx, call, case, key=None, nontrivial=True):
     _robust()
+    _robust2()
     ctx.count((call, key if key is not None else repr(case)), nontrivial)
     try:
         r = ORACLES[call](case)
@@ -568,6 +604,7 @@ def run_oracle(ctx, call, case, key=None, nontrivial=True):
 
 def replay(ctx, rep):
     _robust()
+    _robust2()
     try:
         r = ORACLES[rep['call']](rep['case'])
     except Exception:
@@ -1017,16 +1054,19 @@ def check(ctx):
                              'ue:cover', 'ue:normalized', 'est:est:1d', 'est:est:2d', 'est:occ:2d', 'est:occ:3d',
                              'est:normalized', 'ls:2d', 'ls:3d-shared', 'ls:3d-own', 'contract:np.fft', 'contract:np.linalg.norm',
                              'oracle-est:occ', 'oracle-est:comb', 'oracle-est:plain', 'oracle-est:multi-user',
-                             'oracle-est:multi-antenna', 'oracle-est:normalized'] + _robust().REQUIRED
+                             'oracle-est:multi-antenna', 'oracle-est:normalized'] + _robust().REQUIRED + _robust2().REQUIRED
     try:
         drv = core.Driver(DRIVER)
-        corr_lookup(ctx, drv, 1300)
-        corr_extended(ctx, drv, 12 if quick else 24, 40 if quick else 100, 300 if quick else 5000)
-        corr_root(ctx, drv, quick)
-        corr_ue(ctx, drv, 80 if quick else 1500)
-        corr_estimators(ctx, drv, 70 if quick else 900, 1 if quick else 12)
-        corr_ls(ctx, drv, 60 if quick else 1500)
-        _robust().correspondence(ctx, drv, quick)
+        guarded(ctx, 'prime_lookup', corr_lookup, ctx, drv, 1300)
+        guarded(ctx, 'get_extended_ZF', corr_extended, ctx, drv, 12 if quick else 24, 40 if quick else 100,
+                300 if quick else 5000)
+        guarded(ctx, 'RootSequence.__init__', corr_root, ctx, drv, quick)
+        guarded(ctx, 'UeSequence.__init__', corr_ue, ctx, drv, 80 if quick else 1500)
+        guarded(ctx, 'estimate_channel_freq_domain', corr_estimators, ctx, drv, 70 if quick else 900,
+                1 if quick else 12)
+        guarded(ctx, 'compute_ls_estimation', corr_ls, ctx, drv, 60 if quick else 1500)
+        guarded(ctx, 'robustness R1-R7', _robust().correspondence, ctx, drv, quick)
+        guarded(ctx, 'robustness R8-R14', _robust2().correspondence, ctx, drv, quick)
     except core.Infra as e:
         if not ctx.broken:
             raise
@@ -1036,6 +1076,7 @@ def check(ctx):
     corpus_runs(ctx)
     oracle_runs(ctx, quick)
     _robust().oracle_runs(ctx, quick)
+    _robust2().oracle_runs(ctx, quick)
     ctx.sample({'call': 'prime_lookup', 'size': 1200, 'model': 'last of smallPrimeList.filter (<= size)'})
     ctx.sample({'call': 'RootSequence.seq_array', 'u': 25, 'size': 150,
                 'check': '|a|=1, R[tau]=0 for tau != 0, |DFT|^2 = N, seq[i] = seq[i mod Nzc]'})
@@ -1067,3 +1108,4 @@ def search(ctx):
     for _ in range(600):
         run_oracle(ctx, 'compute_ls_estimation', gen_ls_case(rng))
     _robust().search(ctx)
+    _robust2().search(ctx)
